@@ -498,9 +498,9 @@ func ExploreCross(mp, mt *Machine, startsP, startsT []*State, stats *ExploreStat
 				for _, a := range np {
 					for _, q := range nt {
 						if !decisionsAgree(a.dec, q.dec) {
-						continue // the two front-ends took different branches of the same condition over the same data
-					}
-					if !aliveP(a.z) && !aliveT(q.z) {
+							continue // the two front-ends took different branches of the same condition over the same data
+						}
+						if !aliveP(a.z) && !aliveT(q.z) {
 							paired++ // both hopeless: nothing more to compare
 							continue
 						}
